@@ -217,6 +217,9 @@ def stepD (d : DS) (toks : List String) : DS × String :=
   if d.unmodelled then (d, "unmodelled") else
   match toks with
   | ["deadsock", _, _] => ({ d with unmodelled := true }, "unmodelled")
+  | ["kapressure", _] =>
+    -- the harness runs the real housekeeping pass over a link whose socket is full at the tick; monitors only
+    (d, "kapressure-ok")
   | ["shortsend", _, _] =>
     -- the harness runs the real `send_all_datagrams` on a back-pressured socket; monitors only
     (d, "shortsend-ok")
